@@ -18,11 +18,15 @@ ASSUMPTIONS = [
 def run(ctx):
     rng = random.Random(ctx.seed * 7919 + 16)
     n_arch, n_lrule = (4, 4) if ctx.quick else (5, 4)
-    mcs = [bc.model_check("arch", n_arch), bc.model_check("lrule", min(n_lrule, 5))]
+    mcs = [bc.model_check("arch", n_arch), bc.model_check("arch3", 6), bc.model_check("lrule", min(n_lrule, 5))]
     specs, meta = [], {}
     hs, _ = bc.emit_histories("arch", n_arch)
     meta[f"histories_arch_upto_{n_arch}"] = len(hs)
     specs += bc.specs_from("arch", hs)
+    # three layers / three modules, alternating layer(..) and module calls: every definition with up to three layers
+    hs3, r3 = bc.emit_histories("arch3", 6)
+    meta["histories_arch_three_layers_upto_6"] = len(hs3)
+    specs += bc.specs_from("arch", hs3 if not ctx.quick else rng.sample(hs3, 4000))
     hs, _ = bc.emit_histories("lrule", n_lrule)
     meta[f"histories_lrule_upto_{n_lrule}"] = len(hs)
     specs += bc.specs_from("lrule", hs, asserts=bc.WORLDS[:1])
